@@ -21,6 +21,24 @@ theorem lex_printed (s rest : List Nat) : lexString (printTerminal s ++ rest) = 
 theorem read_print (s rest : List Nat) : readTerminal (printTerminal s ++ rest) = some (s, rest) :=
   read_print' s rest
 
+/-- distinct terminals never print to the same text (so no two different grammars' terminals can be
+confused after printing), and escaping alone is already injective -/
+theorem printTerminal_inj (a b : List Nat) (h : printTerminal a = printTerminal b) : a = b := by
+  have ha := read_print a []
+  have hb := read_print b []
+  rw [h, hb] at ha
+  exact (Prod.mk.inj (Option.some.inj ha)).1.symm
+
+theorem escapeStr_inj (a b : List Nat) (h : escapeStr a = escapeStr b) : a = b := by
+  rw [← unescape_escape a, ← unescape_escape b, h]
+
+/-- two terminals printed one after the other (an alternative `"a" "b"`) are read back as the same two
+terminals, in order, with the remaining text untouched -/
+theorem read_print_two (a b rest : List Nat) :
+    readTerminal (printTerminal a ++ (printTerminal b ++ rest)) = some (a, printTerminal b ++ rest) ∧
+    readTerminal (printTerminal b ++ rest) = some (b, rest) :=
+  ⟨read_print a _, read_print b rest⟩
+
 /-! non-vacuity: quote, backslash, newline, NUL, a placeholder look-alike -/
 example : unescape (escapeStr [34, 92, 10, 0, 36, 36, 66, 92, 110]) = [34, 92, 10, 0, 36, 36, 66, 92, 110] := by decide
 example : escapeStr [34, 92, 10, 0] = [92, 34, 92, 92, 92, 110, 92, 120, 48, 48] := by decide
